@@ -1,4 +1,4 @@
 SPECIFICATION Spec
-CONSTANT Pool = FALSE
+CONSTANT Pool = TRUE
 INVARIANTS Export Distinguishable
 CHECK_DEADLOCK FALSE
